@@ -453,7 +453,7 @@ void gb_free(gbuf_t* g) {
   g->base = 0;
   g->p = 0;
 }
-static void fill_pattern(uint8_t* p, size_t n, int pattern, uint64_t seed) {
+void fill_pattern(uint8_t* p, size_t n, int pattern, uint64_t seed) {
   switch (pattern & 3) {
     case 0:
       memset(p, 0, n);
